@@ -10,10 +10,11 @@ ANCHOR_FILES = ["aw_core/models.py", "aw_core/schema.py"]
 REQUIRED_COUNTERS = ["events_constructed", "schema_validations", "floor_values_checked"]
 RULE = ("(a) sweep: every microsecond value 0..999999 on base instants/offsets, as aware datetime and as ISO string; "
         "(b) random instants 1970..2100 × UTC offsets in [-14h,+14h] × representations {aware datetime, isoformat(), "
-        "'Z' suffix, space separator, 3/6-digit fraction, no fraction, +HHMM offset} × durations {timedelta, int, "
+        "'Z' suffix, space separator, 1/2/3/4/5/6/9-digit fraction, ',' fraction, no fraction, basic format, +HHMM and +HH offsets} × durations {timedelta, int, "
         "float k/1e6} × generated JSON data × ids {None, int, str}; non-trivial = non-zero sub-millisecond part or "
         "non-UTC offset or float duration; signature = (representation, offset sign, µs class, duration kind, id kind)")
-ASSUMPTIONS = ["iso8601 and jsonschema (+ rfc3339 format checkers) are trusted libraries",
+ASSUMPTIONS = ["'1970..2100' is read as the local calendar date: early 1970-01-01 east of UTC (a negative unix time) is in the domain",
+               "iso8601 and jsonschema (+ rfc3339 format checkers) are trusted libraries",
                "float durations are generated as k/10**6 so that 'to the microsecond' is exactly decidable"]
 
 _SCHEMA = []
@@ -22,8 +23,8 @@ _CHECKER = []
 
 def plan(tier):
     # evaluations are counted per judged input: each sweep case carries 5 000 instants
-    return dict(workers=16, cases=(2_000_000 + 100_000) if tier == "quick" else (16_000_000 + 2_000_000),
-                time_s=40 if tier == "quick" else 600, extra=dict(sweeps=2 if tier == "quick" else 16))
+    return dict(workers=16, cases=(3_000_000 + 100_000) if tier == "quick" else (16_000_000 + 2_000_000),
+                time_s=50 if tier == "quick" else 600, extra=dict(sweeps=3 if tier == "quick" else 16))
 
 
 def setup(ctx):
@@ -50,6 +51,18 @@ def _iso(dt, rep):
         body += ".%03d" % (dt.microsecond // 1000)
     elif rep == "space6":
         body = body.replace("T", " ") + ".%06d" % dt.microsecond
+    elif rep in ("frac1", "frac2", "frac4", "frac5", "frac9"):
+        n = int(rep[4:])
+        digits = ("%06d" % dt.microsecond + "789")[:n]
+        body += "." + digits
+    elif rep == "comma3":
+        body += ",%03d" % (dt.microsecond // 1000)
+    elif rep == "basic":
+        return dt.astimezone(timezone.utc).strftime("%Y%m%dT%H%M%SZ")
+    elif rep == "hh":
+        if m % 60 == 0:
+            return body + ".%06d" % dt.microsecond + "%s%02d" % (sign, m // 60)
+        body += ".%06d" % dt.microsecond
     elif rep == "nofrac":
         pass
     elif rep == "hhmm6":
@@ -63,14 +76,18 @@ def _iso(dt, rep):
 
 def _expected_us(us, rep):
     """The instant the representation denotes (some representations drop digits by construction)."""
-    if rep in ("iso3",):
+    if rep in ("iso3", "comma3"):
         return floor_ms(us)
-    if rep in ("nofrac", "z0"):
+    if rep in ("nofrac", "z0", "basic"):
         return us - us % 10**6
+    if rep in ("frac1", "frac2", "frac4", "frac5"):
+        q = 10 ** (6 - int(rep[4:]))
+        return us - us % q
     return us
 
 
-REPS = ["dt", "isoformat", "iso6", "iso3", "space6", "nofrac", "hhmm6", "z6", "z0"]
+REPS = ["dt", "isoformat", "iso6", "iso3", "space6", "nofrac", "hhmm6", "z6", "z0", "frac1", "frac2", "frac4", "frac5", "frac9",
+        "comma3", "basic", "hh"]
 
 
 def _check_event_ts(e, want_us, label):
@@ -92,17 +109,23 @@ def gen_case(rng, ctx):
         idx = ctx.widx * per_worker + k
         block = idx % 200
         which = idx // 200
-        base = [0, 2**31 * 10**6, 946684799 * 10**6, 4102444799 * 10**6][which % 4] if which < 4 else \
+        # the third sweep sits before the unix epoch: 1970-01-01 in a zone east of UTC is a negative instant
+        base = [0, 2**31 * 10**6, -3600 * 10**6, 946684799 * 10**6, 4102444799 * 10**6][which % 5] if which < 5 else \
             rand_instant(rng) // 10**6 * 10**6
-        off = [0, 330, -840, 840][which % 4] if which < 4 else rand_offset(rng)
+        off = [0, 330, 840, -840, 840][which % 5] if which < 5 else rand_offset(rng)
         return dict(kind="sweep", base=base, off=off, lo=block * 5000, hi=(block + 1) * 5000,
                     rep="dt" if which % 2 == 0 else "iso6")
     us = rand_instant(rng)
+    off = rand_offset(rng)
+    if rng.random() < 0.08:
+        # early 1970-01-01 local time east of UTC: the instant lies before the epoch
+        us = -rng.randrange(1, 14 * 3600 * 10**6)
+        off = min(840, -(us // (60 * 10**6)) + rng.randrange(0, 30))
     durk = rng.choice(["td", "td", "int", "float"])
     dur = rand_duration(rng)
     if durk == "int":
         dur = dur // 10**6 * 10**6
-    return dict(kind="one", us=us, off=rand_offset(rng), rep=rng.choice(REPS), durk=durk, dur=dur,
+    return dict(kind="one", us=us, off=off, rep=rng.choice(REPS), durk=durk, dur=dur,
                 data=rand_data(rng, 3), id=rng.choice([None, None, 0, 7, 2**40, "abc", "17"]))
 
 
@@ -173,6 +196,8 @@ def run_case(case, ctx):
     if canon(e.data) != canon(case["data"]):
         viols.append(("data-changed-by-constructor", f"{canon(case['data'])[:200]} -> {canon(e.data)[:200]}"))
     usc = "0" if us % 1000 == 0 else ("999" if us % 1000 == 999 else "x")
+    if us < 0:
+        usc += "-pre-epoch"
     sig = (rep, (off > 0) - (off < 0), usc, case["durk"], dur_us == 0, dur_us % 1000 != 0, type(case["id"]).__name__)
     nontriv = us % 1000 != 0 or off != 0 or case["durk"] == "float"
     return viols, dict(sig=sig, nontrivial=nontriv)
